@@ -41,3 +41,32 @@ Print Assumptions C20_fmt_identity_no_open.
 Theorem C20_fmt_identity_no_close : forall s, ~ In fmt_close s -> fmt s = s.
 Proof. exact fmt_no_close. Qed.
 Print Assumptions C20_fmt_identity_no_close.
+
+(* ---- Fmt on piece sequences: brace-free literals, known tokens in any letter case ---- *)
+
+Theorem C20_fmt : forall ps,
+  lits_ok brace_free ps -> Forall known1 ps -> fmt (render ps) = expected ps.
+Proof. exact fmt_pieces_brace_free. Qed.
+Print Assumptions C20_fmt.
+
+(* stronger: a literal may contain '}' as long as it has no '{' *)
+Theorem C20_fmt_no_open : forall ps,
+  lits_ok no_open ps -> Forall known1 ps -> fmt (render ps) = expected ps.
+Proof. exact fmt_pieces. Qed.
+Print Assumptions C20_fmt_no_open.
+
+(* ---- TrimFmt: for EVERY iteration order of the two maps, exactly the lower-case {name}
+   tokens are removed.  `trim_expected` keeps the literals, the tokens whose name is not,
+   byte for byte, a key of fmtColors/fmtCodes ({RED}, {foo}) and all {fg,bg} pairs. ---- *)
+
+Theorem C20_trim : forall order ps,
+  Permutation order trim_names -> lits_ok brace_free ps -> Forall tok_wf ps ->
+  trim_fmt order (render ps) = trim_expected ps.
+Proof. exact trim_fmt_any_order_brace_free. Qed.
+Print Assumptions C20_trim.
+
+Theorem C20_trim_no_open : forall order ps,
+  Permutation order trim_names -> lits_ok no_open ps -> Forall tok_wf ps ->
+  trim_fmt order (render ps) = trim_expected ps.
+Proof. intros order ps P HL HW. apply trim_fmt_any_order; [exact P|split; assumption]. Qed.
+Print Assumptions C20_trim_no_open.
